@@ -229,6 +229,7 @@ def run(tier):
 def conventions(rep, tier):
     from absint import lower_driver, Unsupported
     from tensoralg import run_shim, syms, first_diff
+    from poly import Rat
     import poly as P
     from poly import Rat
     P.reset_registry()
@@ -287,4 +288,30 @@ def conventions(rep, tier):
             else:
                 rep.fail(key + "#stiffness", "computeOrthotropicStiffnessTensor<%s,%s>: entry (%d,%d) is %r; the 3D tensor with axes "
                          "permutation %s gives %r" % (e, c, d[0] // n, d[0] % n, d[1], what, d[2]))
-    rep.floor("convention shims interpreted", 45)
+    # altered stiffness: the alteration only exists under plane stress (static condensation of sigma_zz = 0)
+    for e in DOC:
+        if e == "AXISYMMETRICALGENERALISEDPLANESTRESS":
+            continue
+        for c in ("DEFAULT", "PIPE"):
+            n = DOC[e][1]
+            perm = [0, 2, 1, 4, 3, 5] if (c == "PIPE" and e in PLANE) else [0, 1, 2, 3, 4, 5]
+            what = "y<->z" if perm[1] == 2 else "identity"
+            out = one("verif_stiffA_%s_%s" % (e, c), e9, n * n)
+            sub = [[C3[perm[i] * 6 + perm[j]] for j in range(n)] for i in range(n)]
+            if e == "PLANESTRESS":
+                want = [Rat(0)] * (n * n)
+                for i in range(n):
+                    for j in range(n):
+                        if i != 2 and j != 2:
+                            want[i * n + j] = sub[i][j] - sub[i][2] * sub[2][j] / sub[2][2]
+                txt = "plane-stress condensation of the 3D tensor (axes permutation %s)" % what
+            else:
+                want = [sub[i][j] for i in range(n) for j in range(n)]
+                txt = "the unaltered restriction of the 3D tensor (axes permutation %s): the alteration only exists under plane stress" % what
+            d = first_diff(out, want)
+            if d is None:
+                rep.ok("computeOrthotropicStiffnessTensor<%s,ALTERED,%s> = %s" % (e, c, txt), sample=(c == "PIPE" and e == "PLANESTRAIN"))
+            else:
+                rep.fail("CONVENTION@%s/%s#altered-stiffness" % (e, c), "computeOrthotropicStiffnessTensor<%s,ALTERED,%s>: entry (%d,%d) is %r, "
+                         "expected %s: %r" % (e, c, d[0] // n, d[0] % n, d[1], txt, d[2]))
+    rep.floor("convention shims interpreted", 55)
